@@ -5,6 +5,7 @@ use crate::gen::*;
 use crate::prng::Prng;
 use crate::runner::{Engine, Obs, Tier, Verdict};
 use crate::vmrun::{new_vm, Aux, VmConfig};
+use cao_lang::vm::runtime::cao_lang_object::ObjectGcGuard;
 use cao_lang::compiler::{Card, CardBody, Function, Module};
 use cao_lang::prelude::*;
 use serde::{Deserialize, Serialize};
@@ -44,6 +45,10 @@ pub struct Case {
     pub script: bool,
     pub tables: usize,
     pub ops: Vec<Op>,
+    /// host histories only: a small heap, so that some insert / append fails with OutOfMemory (the failed operation
+    /// must leave the table as it was)
+    #[serde(default)]
+    pub memory_limit: Option<usize>,
 }
 
 pub struct TableEngine {}
@@ -119,14 +124,19 @@ fn mv(v: &V) -> MV {
 
 // ---------------------------------------------------------------- host side
 
-fn mk_key(vm: &mut Vm<Aux>, k: &K) -> Value {
-    match k {
+fn mk_key(vm: &mut Vm<Aux>, k: &K, hold: &mut Vec<ObjectGcGuard>) -> Option<Value> {
+    Some(match k {
         K::Nil => Value::Nil,
         K::Int(i) => Value::Integer(*i),
         K::Real(b) => Value::Real(f64::from_bits(*b)),
         // a fresh string object every time: lookups must work by content
-        K::Str(s) => Value::Object(vm.init_string(s).unwrap().into_inner()),
-    }
+        K::Str(s) => {
+            // the host keeps the guard until the operation is over, as the API asks
+            let p = vm.init_string(s).ok()?.into_inner();
+            hold.push(ObjectGcGuard::new(p));
+            Value::Object(p)
+        }
+    })
 }
 
 fn key_of(v: &Value) -> K {
@@ -170,35 +180,81 @@ fn tab<'a>(v: &'a mut Value) -> &'a mut CaoLangTable {
 }
 
 fn run_host(case: &Case, obs: &mut Obs) -> Verdict {
-    let cfg = VmConfig::default();
+    let cfg = match case.memory_limit {
+        // (no collections: the host holds its tables without roots)
+        Some(l) => VmConfig { memory_limit: Some(l), suppress_gc: true, ..VmConfig::default() },
+        None => VmConfig::default(),
+    };
     let mut vm = new_vm(&cfg, &[]);
-    let mut tabs: Vec<Value> = (0..case.tables).map(|_| Value::Object(vm.init_table().unwrap().into_inner())).collect();
+    let mut tabs: Vec<Value> = Vec::new();
+    // the host's tables are kept alive by their guards; operands by `hold` until the operation is over
+    let mut table_guards: Vec<ObjectGcGuard> = Vec::new();
+    let mut hold: Vec<ObjectGcGuard> = Vec::new();
+    for _ in 0..case.tables {
+        match vm.init_table() {
+            Ok(g) => {
+                let p = g.into_inner();
+                table_guards.push(ObjectGcGuard::new(p));
+                tabs.push(Value::Object(p))
+            }
+            Err(_) => return Verdict::Skip { reason: "the heap is too small for the empty tables".into() },
+        }
+    }
+    macro_rules! mk_str {
+        ($s:expr) => {
+            match vm.init_string($s) {
+                Ok(g) => {
+                    let p = g.into_inner();
+                    hold.push(ObjectGcGuard::new(p));
+                    Value::Object(p)
+                }
+                Err(_) => {
+                    obs.inc("host:operand-allocation-failed");
+                    continue;
+                }
+            }
+        };
+    }
     let mut model = Model { tables: vec![Vec::new(); case.tables] };
     let mut popped = vec![false; case.tables];
     for (step, op) in case.ops.iter().enumerate() {
+        hold.clear();
         match op {
             Op::Set(t, k, v) => {
                 obs.inc("host:set");
-                let kv = mk_key(&mut vm, k);
+                let Some(kv) = mk_key(&mut vm, k, &mut hold) else {
+                    obs.inc("host:operand-allocation-failed");
+                    continue;
+                };
                 let vv = match v {
                     V::Int(i) => Value::Integer(*i),
-                    V::Str(s) => Value::Object(vm.init_string(s).unwrap().into_inner()),
+                    V::Str(s) => mk_str!(s),
                     V::Tab(i) => {
                         obs.inc("aliased_table_stored");
                         tabs[*i]
                     }
                 };
-                if let Err(e) = tab(&mut tabs[*t]).insert(kv, vv) {
-                    return viol("insert", "error", format!("step {step}: insert failed: {e}"));
+                match tab(&mut tabs[*t]).insert(kv, vv) {
+                    Ok(_) => model.set(*t, k.clone(), mv(v)),
+                    Err(ExecutionErrorPayload::OutOfMemory) if case.memory_limit.is_some() => {
+                        // nothing changes (checked by the full comparison below)
+                        obs.inc("host:insert-out-of-memory");
+                        if model.find(*t, k).is_some() {
+                            return viol("insert", "oom-on-update", format!("step {step}: replacing the value of an existing key failed with OutOfMemory"));
+                        }
+                    }
+                    Err(e) => return viol("insert", "error", format!("step {step}: insert failed: {e}")),
                 }
-                model.set(*t, k.clone(), mv(v));
             }
             Op::Get(t, k) => {
                 obs.inc("host:get");
                 if popped[*t] {
                     obs.inc("get_after_pop");
                 }
-                let kv = mk_key(&mut vm, k);
+                let Some(kv) = mk_key(&mut vm, k, &mut hold) else {
+                    obs.inc("host:operand-allocation-failed");
+                    continue;
+                };
                 let raw = tab(&mut tabs[*t]).get(&kv).copied();
                 let got = raw.map(|v| val_of(&v, &tabs)).unwrap_or(MV::Nil);
                 let want = model.find(*t, k).map(|i| model.tables[*t][i].1.clone()).unwrap_or(MV::Nil);
@@ -208,7 +264,10 @@ fn run_host(case: &Case, obs: &mut Obs) -> Verdict {
             }
             Op::Remove(t, k) => {
                 obs.inc("host:remove");
-                let kv = mk_key(&mut vm, k);
+                let Some(kv) = mk_key(&mut vm, k, &mut hold) else {
+                    obs.inc("host:operand-allocation-failed");
+                    continue;
+                };
                 let _ = tab(&mut tabs[*t]).remove(kv);
                 if let Some(i) = model.find(*t, k) {
                     model.tables[*t].remove(i);
@@ -221,13 +280,14 @@ fn run_host(case: &Case, obs: &mut Obs) -> Verdict {
                 }
                 let vv = match v {
                     V::Int(i) => Value::Integer(*i),
-                    V::Str(s) => Value::Object(vm.init_string(s).unwrap().into_inner()),
+                    V::Str(s) => mk_str!(s),
                     V::Tab(i) => tabs[*i],
                 };
-                if let Err(e) = tab(&mut tabs[*t]).append(vv) {
-                    return viol("append", "error", format!("step {step}: append failed: {e}"));
+                match tab(&mut tabs[*t]).append(vv) {
+                    Ok(_) => model.append(*t, mv(v)),
+                    Err(ExecutionErrorPayload::OutOfMemory) if case.memory_limit.is_some() => obs.inc("host:append-out-of-memory"),
+                    Err(e) => return viol("append", "error", format!("step {step}: append failed: {e}")),
                 }
-                model.append(*t, mv(v));
             }
             Op::Pop(t) => {
                 obs.inc("host:pop");
@@ -385,8 +445,9 @@ impl Engine for TableEngine {
     fn gen(&mut self, rng: &mut Prng, tier: Tier) -> Case {
         let script = rng.chance(1, 2);
         let tables = rng.range(1, 3) as usize;
-        let n = rng.range(5, if tier == Tier::Quick { 80 } else { 120 }) as usize;
-        let profile = rng.below(3);
+        let memory_limit = if !script && rng.chance(1, 4) { Some(*rng.pick(&[1200usize, 2000, 3000, 5000, 9000])) } else { None };
+        let n = if memory_limit.is_some() { rng.range(40, 400) } else { rng.range(5, if tier == Tier::Quick { 80 } else { 120 }) } as usize;
+        let profile = if memory_limit.is_some() { 2 } else { rng.below(3) };
         let mut ops = Vec::new();
         for _ in 0..n {
             let t = rng.below(tables);
@@ -426,7 +487,7 @@ impl Engine for TableEngine {
             }
             ops.push(op);
         }
-        Case { script, tables, ops }
+        Case { script, tables, ops, memory_limit }
     }
     fn run(&mut self, case: &Case, obs: &mut Obs) -> Verdict {
         if case.script {
